@@ -13,7 +13,7 @@ def sh(cmd, cwd=None, env=None, timeout=3000):
 
 def build(wt, force=False):
     if force:  # setuptools does not track header dependencies: touch every Cython / C++ source so that everything is recompiled
-        sh("find dimod extern -name '*.pyx' -o -name '*.cpp' | grep -v '/build/' | xargs touch", cwd=wt)
+        sh("find extern -name '*.cpp' | xargs touch; sleep 1; find dimod -name '*.pyx' | xargs touch", cwd=wt)  # never the generated dimod/**/*.cpp: a newer .cpp stops cythonize
     r = sh(f'CYTHON_NTHREADS=8 {PY} setup.py build_ext --inplace -j8', cwd=wt)
     assert r.returncode == 0, r.stdout[-2000:] + r.stderr[-2000:]
 
